@@ -217,6 +217,10 @@ def run(t, budget=1.0):
                 lm0 = M.member(d0.encoding, "length")
                 top0 = prim_range(d0.length_prim)[1]
                 nv = min(pick, top0) if data.draw(st.booleans()) else data.draw(st.sampled_from(sorted({0, 1, top0, top0 - 1, min(top0, 2 ** 31), min(top0, 2 ** 32 + 1), min(top0, 2 ** 62)})))
+                if d0.header_size + nv >= 2 ** 63:
+                    # the property is about sizes that fit size_t (DESIGN 4, C05); a 64-bit length near the type maximum does not
+                    res.cls("data_size_not_representable_skipped")
+                    return
                 empty = {"fields": data.draw(values.level_values(L, max_entries=0))["fields"], "groups": {}, "data": {x.name: b"" for x in L.data}}
                 img, size = M.encode_message(L, empty, background=0)
                 dpos = M.header.size + L.block_length
